@@ -263,6 +263,11 @@ def run(ctx: Ctx) -> None:
             if o["log"]:
                 o["logname"] = rng.choice(ODD_LOGS)
             cases.append({"kind": "run", "o": o, "subprocess": nm in ("~case", "$HOME")})
+    for bad in ("aw", "", "wa", "A", "a ", "append", "a\n", "w+", "x"):
+        cases.append({"kind": "bad", "argv": ["src.dict", "--mode", bad], "subprocess": bad == "aw"})
+        cases.append({"kind": "bad", "argv": ["src.dict", f"--mode={bad}"], "subprocess": False})
+    for bad in ("js", "jsonx", "", "JSON", "cpp ", "xm"):
+        cases.append({"kind": "bad", "argv": ["src.dict", "--output", bad], "subprocess": False})
     for argv, sub in ((["nope.dict"], True), (["nope.dict", "-o", "json"], False), (["src.dict", "--mode", "x"], True), (["src.dict", "-o", "yaml"], False),
                       (["src.dict", "--log-level", "LOUD"], False), ([], False), (["src.dict", "--unknown"], False)):
         cases.append({"kind": "bad", "argv": argv, "subprocess": sub})
